@@ -117,6 +117,8 @@ class Sandbox:
         self._backup_variables = {}
         # Modules
         self._module_overrides = {}
+        # What was placed into the student's namespace for mocked builtins
+        self._mocked_globals = {}
         self.modules = SandboxModules()
         self.clear_mocks()
         self.clear_data()
@@ -622,14 +624,18 @@ class Sandbox:
         builtins = builtins
         for name, value in builtins.items():
             if value is True:
-                data['__builtins__'][name] = mocked.ORIGINAL_BUILTINS[name]
-                data[name] = mocked.ORIGINAL_BUILTINS[name]
+                value = mocked.ORIGINAL_BUILTINS[name]
             elif value is False:
-                data['__builtins__'][name] = mocked.disabled_builtin(name)
-                data[name] = mocked.disabled_builtin(name)
-            else:
-                data['__builtins__'][name] = value
-                data[name] = value
+                value = mocked.disabled_builtin(name)
+            data['__builtins__'][name] = value
+            if data is self.data:
+                # A global of the student's own that has the name of a
+                # builtin shadows it, as in Python: only what we put there
+                # ourselves last time is replaced
+                if name in data and data[name] is not self._mocked_globals.get(name, data):
+                    continue
+                self._mocked_globals[name] = value
+            data[name] = value
 
     def _start_mocking(self, context: SandboxContext):
         """ Mock input, output, builtins, and modules """
